@@ -258,11 +258,94 @@ def d6(ctx, rid):
     c11.f9(ctx, rid)
 
 
+ACQ = ('read', 'write', 'lock', 'upgradable_read', 'try_read', 'try_write', 'try_lock')
+
+
+def _taint(f, start):
+    """locals whose value may be computed from the value in `start` (through copies, references, any call taking it)"""
+    carry = {start}
+    changed = True
+    while changed:
+        changed = False
+        for i, b in enumerate(f.blocks):
+            if b['c']:
+                continue
+            for st in b['s']:
+                if st['k'] == 'a' and any(p[0] in carry for p in core.rvalue_places(st['r'])) and st['d'][0] not in carry:
+                    carry.add(st['d'][0])
+                    changed = True
+            t = b['t']
+            if t['k'] == 'call':
+                c = f.call_at(i)
+                if any(op_local(a) in carry for a in c.args) and c.dest[0] not in carry:
+                    carry.add(c.dest[0])
+                    changed = True
+    return carry
+
+
+def d7(ctx, rid):
+    """no decision is carried from one critical section into the next one on the same lock: a value computed through a guard
+    of lock L that has been released is not handed to (or stored through) a later write guard of the same L in the same body.
+    The state may have changed between the two acquisitions (check under the read lock, act under the write lock): with two
+    concurrent adders the stale decision overwrites the other thread's wider bound and the filter answers `absent` for an added
+    key."""
+    prog = ctx.prog
+    n = 0
+    nbad = 0
+    for f in prog.fns.values():
+        acqs = []
+        for c in f.calls:
+            if c.bb not in f.reachable() or c.name not in ACQ or not c.args:
+                continue
+            if not ('RwLock' in c.path or 'Mutex' in c.path):
+                continue
+            recv = op_local(c.args[0])
+            if recv is None:
+                continue
+            ds = [x for x in f.defs().get(recv, []) if x[2] == 'assign' and x[3]['k'] == 'ref']
+            place = ds[0][3]['p'] if len(ds) == 1 else None
+            if place is None:
+                continue
+            names = tuple(core.place_fields_deep(f, place))
+            root = core.access_root(f, place[0])
+            acqs.append((c, names, root))
+        if len(acqs) < 2:
+            continue
+        for (c1, n1, r1) in acqs:
+            for (c2, n2, r2) in acqs:
+                if c1 is c2 or n1 != n2 or r1 != r2 or not n1:
+                    continue
+                if c2.name not in ('write', 'lock', 'try_write', 'try_lock'):
+                    continue
+                if c2.bb not in f.reach_from(f.after(c1.bb)) or c1.bb in f.reach_from(f.after(c2.bb)):
+                    continue    # c1 strictly before c2 (no loop back)
+                n += 1
+                t1 = _taint(f, c1.dest[0])
+                g2 = _taint(f, c2.dest[0])
+                bad = None
+                for c in f.calls:
+                    if c.bb not in f.reach_from(f.after(c2.bb)) or c is c2 or not c.args:
+                        continue
+                    if op_local(c.args[0]) in g2 and c.name not in ('expect', 'unwrap', 'deref', 'deref_mut', 'poll', 'into_future', 'new_unchecked'):
+                        stale = [a for a in c.args[1:] if op_local(a) in t1 and op_local(a) not in g2]
+                        if stale:
+                            bad = c
+                            break
+                key = 'no-stale-decision|%s|%s' % (prog.fns[f.id].root, '.'.join(n1))
+                if bad is not None:
+                    nbad += 1
+                    ctx.bad(rid, key, bad.where(), 'a value computed under a guard of `%s` acquired at %s (already released) is handed to `%s` under a later write guard of the same lock: the state may have changed in between (check-then-act across two critical sections)' % ('.'.join(n1), c1.where(), bad.name))
+                else:
+                    ctx.ok(rid, key, c2.where(), 'nothing computed under the earlier guard flows into the later critical section', nontrivial=False)
+    ctx.ok(rid, 'scan', '', '%d pairs of successive acquisitions of one lock in one body examined, %d carry a decision across' % (n, nbad), nontrivial=False, queries=max(1, n))
+
+
 RULES = [
     Rule('C08.D1', 'the wait-for graph over lock classes, the bounded worker channel and task joins has no cycle with conflicting modes', d1, 1),
     Rule('C08.D2', 'every record append on a blob is made with exclusive access that is still held at the index push of that record', d2, 2),
     Rule('C08.D3', 'no std::sync guard is live at a suspension point', d3, 1),
     Rule('C08.D5', 'the active slot is assigned only where it was seen empty through the exclusive guard in hand (no check-then-act across two acquisitions)', d5, 4),
     Rule('C08.D6', 'no file of the io layer is opened with O_APPEND: the reserved offset is the offset written (C11.F9 instance)', d6, 1),
+    Rule('C08.D7', 'no value computed under a released guard of a lock is handed to a later write guard of the same lock in the same body', d7, 1),
     Rule('C08.D4', 'append offsets originate only in the atomic size reservation; the counter is only loaded / fetch_add-ed', d4, 5),
 ]
